@@ -282,7 +282,33 @@ def zx_wire(parent, w, n):
     return r
 
 
+def d_reset_chain(s, w=3):
+    """a register with synchronous reset feeding registers/recorders that are not reset"""
+    from py4hw.logic.simulation import StreamCapture
+    a, rst, e = s.wire('a', w), s.wire('rst', 1), s.wire('e', 1)
+    qa, qb, qc = s.wire('qa', w), s.wire('qb', w), s.wire('qc', w)
+    Reg(s, 'ra', a, qa, reset=rst, reset_value=5)
+    Reg(s, 'rb', qa, qb)
+    Reg(s, 'rc', qb, qc, enable=e, reset=rst, reset_value=2)
+    StreamCapture(s, 'cap', qa)
+    return {'ins': {'a': a, 'rst': rst, 'e': e}}
+
+
+def d_mem_regs(s):
+    """memory whose address, data and write strobe come from registers with different controls"""
+    a, wd, we, rst = s.wire('a', 1), s.wire('wd', 2), s.wire('we', 1), s.wire('rst', 1)
+    qa, qd, qw, rd, qo = s.wire('qa', 1), s.wire('qd', 2), s.wire('qw', 1), s.wire('rd', 2), s.wire('qo', 2)
+    Reg(s, 'ra', a, qa, reset=rst)
+    Reg(s, 'rd_', wd, qd, enable=we)
+    Reg(s, 'rw', we, qw, reset=rst, reset_value=1)
+    SynchronousMemory(s, 'mem', qa, qa, qw, rd, qd)
+    Reg(s, 'ro', rd, qo)
+    return {'ins': {'a': a, 'wd': wd, 'we': we, 'rst': rst}}
+
+
 DESIGNS = {
+    'reset-chain': d_reset_chain,
+    'regs-mem-reg': d_mem_regs,
     'chain3': lambda s: d_chain(s, 4, 3),
     'chain5': lambda s: d_chain(s, 2, 5),
     'swap': d_swap,
